@@ -4,6 +4,7 @@ import (
 	"encoding/json"
 	"fmt"
 	"os"
+	"runtime/debug"
 	"sort"
 	"strings"
 	"testing"
@@ -45,6 +46,24 @@ func doReq(h fasthttp.RequestHandler, method, path string) *fasthttp.RequestCtx 
 	return rc
 }
 
+// panicSite: the innermost frames of the code under test at a recovered panic (" @ file:line < file:line ...")
+func panicSite() string {
+	var sites []string
+	for _, l := range strings.Split(string(debug.Stack()), "\n") {
+		l = strings.TrimSpace(l)
+		if strings.HasPrefix(l, "/repo/") || strings.Contains(l, "/fasthttp@") {
+			if i := strings.IndexByte(l, ' '); i > 0 {
+				l = l[:i]
+			}
+			sites = append(sites, strings.TrimPrefix(l, "/repo/"))
+			if len(sites) == 5 {
+				break
+			}
+		}
+	}
+	return " @ " + strings.Join(sites, " < ")
+}
+
 func doReqH(h fasthttp.RequestHandler, method, path string, kv ...string) *fasthttp.RequestCtx {
 	rc := &fasthttp.RequestCtx{}
 	rc.Request.Header.SetMethod(method)
@@ -58,7 +77,7 @@ func doReqH(h fasthttp.RequestHandler, method, path string, kv ...string) *fasth
 			if r := recover(); r != nil {
 				rc.Response.Reset()
 				rc.Response.SetStatusCode(599)
-				rc.Response.SetBodyString(fmt.Sprint("PANIC: ", r))
+				rc.Response.SetBodyString(fmt.Sprint("PANIC: ", r, panicSite()))
 			}
 		}()
 		h(rc)
@@ -82,7 +101,7 @@ func doReqReuse(rc *fasthttp.RequestCtx, h fasthttp.RequestHandler, method, path
 			if r := recover(); r != nil {
 				rc.Response.Reset()
 				rc.Response.SetStatusCode(599)
-				rc.Response.SetBodyString(fmt.Sprint("PANIC: ", r))
+				rc.Response.SetBodyString(fmt.Sprint("PANIC: ", r, panicSite()))
 			}
 		}()
 		h(rc)
